@@ -231,6 +231,9 @@ type c08Env struct {
 	h6  *icmp.Handler6
 	d   *dhcp4.Handler
 	n   *dns.DNSHandler
+	// the last frame each processor handled, and the one the processor of the current frame handled before it
+	last map[string][]byte
+	prev []byte
 }
 
 func newC08Env() *c08Env {
@@ -261,6 +264,7 @@ type c08Replay struct {
 	Kind  string `json:"kind"` // frame | decoder
 	Frame string `json:"frame"`
 	Name  string `json:"name,omitempty"`
+	Prev  string `json:"prev,omitempty"` // frame: the frame the same processor handled just before (state left behind by it)
 }
 
 // dispatch parses the frame and hands it to the processor selected by its PayloadID, as the packet loop does.
@@ -284,37 +288,55 @@ func (e *c08Env) dispatch(f []byte) (accepted bool, handler string, panicked str
 	switch frame.PayloadID {
 	case packet.PayloadARP:
 		handler = "arp.ProcessPacket"
+		e.remember(handler, f)
 		e.arp.ProcessPacket(frame)
 	case packet.PayloadDHCP4:
 		handler = "dhcp4.ProcessPacket"
+		e.remember(handler, f)
 		e.d.ProcessPacket(frame)
 	case packet.PayloadICMP4:
 		handler = "icmp4.ProcessPacket"
+		e.remember(handler, f)
 		e.h4.ProcessPacket(frame)
 	case packet.PayloadICMP6:
 		handler = "icmp6.ProcessPacket"
+		e.remember(handler, f)
 		e.h6.ProcessPacket(frame)
 	case packet.PayloadDNS:
 		handler = "dns.ProcessDNS"
+		e.remember(handler, f)
 		e.n.ProcessDNS(frame)
 	case packet.PayloadMDNS, packet.PayloadLLMNR:
 		handler = "dns.ProcessMDNS"
+		e.remember(handler, f)
 		e.n = dns.VerifNew(e.s) // the response cache keyed by (MAC, id) would hide every later variant of the message
 		e.n.ProcessMDNS(frame)
 	case packet.PayloadNBNS:
 		handler = "dns.ProcessNBNS"
+		e.remember(handler, f)
 		e.n.ProcessNBNS(frame.Host, frame.Ether(), frame.Payload())
 	case packet.PayloadSSDP:
 		handler = "dns.ProcessSSDP"
+		e.remember(handler, f)
 		e.n.ProcessSSDP(frame.Host, frame.Ether(), frame.Payload())
 	case packet.Payload8023:
 		handler = "Process8023Frame"
+		e.remember(handler, f)
 		packet.Process8023Frame(frame, 0)
 	default:
 		return true, "", ""
 	}
 	e.s.Notify(frame)
 	return true, handler, ""
+}
+
+// remember records f as the last frame of its processor and exposes the previous one in e.prev.
+func (e *c08Env) remember(handler string, f []byte) {
+	if e.last == nil {
+		e.last = map[string][]byte{}
+	}
+	e.prev = e.last[handler]
+	e.last[handler] = append([]byte(nil), f...)
 }
 
 // decoders runs the exported payload-level decoders directly on a byte string.
@@ -401,10 +423,17 @@ func c08One(c *core.Ctx, e **c08Env, class string, f []byte) {
 			kind = "handler-nontermination"
 		}
 		site := panicked[strings.LastIndex(panicked, "@")+1:]
-		c.Violate(kind+"|"+site, fmt.Sprintf("%s: %s on a mutation of %s: %s frame=%x", handler, kind, class, panicked, trunc(f, 96)), c08Replay{Kind: "frame", Frame: hex.EncodeToString(f), Name: class})
+		rp := c08Replay{Kind: "frame", Frame: hex.EncodeToString(f), Name: class}
+		if strings.Contains(panicked, "held forever") && (*e).prev != nil {
+			rp.Prev = hex.EncodeToString((*e).prev) // the lock was leaked by the previous message of this processor
+		}
+		c.Violate(kind+"|"+site, fmt.Sprintf("%s: %s on a mutation of %s: %s frame=%x", handler, kind, class, panicked, trunc(f, 96)), rp)
 		// the environment may hold a lock that the panic left locked: abandon it without closing
 		*e = newC08Env()
 		c08Violations++
+		if strings.Contains(panicked, "held forever") {
+			c08Violations = 40 // a leaked lock: every later message on that handler would wait for the backstop again
+		}
 	}
 }
 
@@ -563,6 +592,11 @@ func c08Replayer(data []byte) string {
 		return ""
 	}
 	e := newC08Env()
+	if pb, _ := hex.DecodeString(r.Prev); len(pb) > 0 {
+		pbuf := make([]byte, len(pb), packet.EthMaxSize)
+		copy(pbuf, pb)
+		e.dispatch(pbuf)
+	}
 	buf := make([]byte, len(b), packet.EthMaxSize)
 	copy(buf, b)
 	_, handler, panicked := e.dispatch(buf)
